@@ -176,7 +176,7 @@ static world g_world;
 static const range NORANGE{nullptr, nullptr};
 
 // how a wrapper is cloned
-enum clone_how { COPY_CLV = 0, COPY_LV = 1, MOVE = 2 };
+enum clone_how { COPY_CLV = 0, COPY_LV = 1, MOVE = 2, RELOC = 3 };   // RELOC: through a std::vector that reallocates
 
 struct holder
 {
@@ -243,6 +243,14 @@ struct cw_holder : holder
         else if (form == "cget") r.push_back(SEE(xtl::as_const(w).get(), self(), NORANGE));
         else if (form == "rget")
             when<REF || CP>::run("rget on an owning move-only closure", [&](auto id) { r.push_back(SEE(std::move(id(w)).get(), self(), NORANGE)); });
+        else if (form == "rbind")
+            when<REF || CP>::run("copy of an owning move-only closure", [&](auto id) {
+                // the rvalue accessor of a temporary copy of the wrapper, bound to a reference; the temporary wrapper is gone
+                // when r is read (a reference into it is a use after scope: the sanitizer ends the trace with a Crash event)
+                auto&& bound = W(id(xtl::as_const(w))).get();
+                if (REF) r.push_back(see_ref(bound, self(), NORANGE));
+                else r.push_back(obs{"value", vt::valof(bound)});
+            });
         else if (form == "conv")
             when<REF || CP>::run("conversion of an owning move-only closure", [&](auto id) {
                 CT c = id(w);                                  // operator closure_type()
@@ -268,6 +276,18 @@ struct cw_holder : holder
     {
         holder* h = nullptr;
         if (how == MOVE) when<REF || CP || WR>::run("move of a const move-only closure", [&](auto id) { h = new cw_holder(kind.c_str(), std::move(id(w)), 0); });
+        else if (how == RELOC)
+            when<REF || CP || WR>::run("move of a const move-only closure", [&](auto id) {
+                // the wrapper goes into a vector, two more elements make the vector reallocate (its elements are moved or
+                // copied to new storage, the old ones destroyed), the relocated element is taken out again
+                std::vector<W> v;
+                v.reserve(1);
+                v.push_back(std::move(id(w)));
+                const void* before = (const void*)v.data();
+                v.reserve(v.capacity() + 7);
+                if ((const void*)v.data() == before) unsupported("the vector did not reallocate");
+                h = new cw_holder(kind.c_str(), std::move(v.front()), 0);
+            });
         else if (how == COPY_CLV) when<REF || CP>::run("copy of an owning move-only closure", [&](auto id) { h = new cw_holder(kind.c_str(), id(xtl::as_const(w)), copy_tag()); });
         else when<REF || CP>::run("copy of an owning move-only closure", [&](auto id) { h = new cw_holder(kind.c_str(), id(w), lcopy_tag()); });
         return h;
@@ -1229,11 +1249,11 @@ struct machine
             else if (op == "ValueOr") val = obs_json({slot(k).value_or(int(a.num("v")), a.str("d"), a.str("form"))});
             else if (op == "Assign") slot(k).assign(int(a.num("v")), a.str("cat") == "rv");
             else if (op == "AssignComp") slot(k).assign_comp(int(a.num("i")) - 1, int(a.num("v")), a.str("form"));
-            else if (op == "CopyW" || op == "MoveW")
+            else if (op == "CopyW" || op == "MoveW" || op == "RelocW")
             {
                 int j = int(a.num("j")) - 1;
                 if (j == k || k < 0 || k >= NW) unsupported("clone target");
-                clone_how how = op == "MoveW" ? MOVE : (a.str("form") == "lv" ? COPY_LV : COPY_CLV);
+                clone_how how = op == "RelocW" ? RELOC : op == "MoveW" ? MOVE : (a.str("form") == "lv" ? COPY_LV : COPY_CLV);
                 holder* h = slot(j).clone(how);
                 if (!h) unsupported("clone produced nothing");
                 W[k].reset(h);
